@@ -28,13 +28,13 @@ ASSUMPTIONS = ["Rust semantics of Vec/usize as modelled (checked indexing, debug
 UNPROVED = ["behaviour on duplicate positions and on malformed raw arrays is outside the claim: tied (model = implementation), not specified "
             "(well-formedness and termination are proved with duplicates allowed; the agreement of the views needs duplicate-freeness: "
             "get returns the first stored duplicate, to_dense the last)",
-            "from_vecs is an echo of its arguments: no theorem beyond the model; raw-array construction is covered by tie + search",
+            "from_vecs is an echo of its arguments (from_vecs_wf: well-formed arrays are returned as they are); what it does with malformed arrays is tied, not specified",
             "the f64 / Complex<f64> instances are tied bitwise; nothing about C06 depends on arithmetic laws"]
 
 MANIFEST = dict(
     text=("Theorems about the Gallina model of src/sparse.rs (six public CSC fields, every guard and index checked), for all shapes, "
           "all entry values and all histories: from_triplets on in-range triplets returns a well-formed matrix whose triplet list is a "
-          "permutation of the input (from_triplets_wf); well-formedness is preserved by insert, scale and transpose and hence by every "
+          "permutation of the input (from_triplets_wf); from_vecs returns well-formed raw arrays unchanged (from_vecs_wf); well-formedness is preserved by insert, scale and transpose and hence by every "
           "finite history (wfS_step, wfS_history), and every history whose insertions are in range returns (history_total); for "
           "duplicate-free contents get, to_triplets, to_dense and col_index describe one matrix (views_agree), construction does not "
           "depend on the triplet order (order_independent), transpose keeps exactly the swapped entries (transpose_entries) and every "
